@@ -242,6 +242,52 @@ func c12Jobs(thorough bool) []c12Job {
 			}
 		}
 	}
+	// F4b: a log_addr filter with full addresses (the push-down candidate) next to a REFERENCE-ONLY filter
+	// (filter_ref, no filter_arg) on an event input or on a block field: logs from contracts that are not
+	// listed carry referenced values, so under or / unset the address restriction must not be sent
+	la := c12Classes("f:log_addr")
+	for _, op := range []string{"eq", "contains"} {
+		for _, arg := range [][]string{{la[0]}, {la[0], la[1]}} {
+			for _, tg := range []string{"in:from", "f:tx_to"} {
+				for _, rop := range []string{"contains", "!contains"} {
+					for _, content := range []string{"none", "some", "all"} {
+						for _, agg := range []string{"or", "and", ""} {
+							fs := []c12Filter{{Target: "f:log_addr", Op: op, Arg: arg}, {Target: tg, Op: rop, Ref: content}}
+							if op == "contains" { // declaration order must not matter
+								fs[0], fs[1] = fs[1], fs[0]
+							}
+							add(c12Job{Shape: "EV1", Filters: fs, Agg: agg, Judged: true, Family: "pushdown-ref"})
+						}
+					}
+				}
+			}
+		}
+	}
+	// F4c: a filter on a selected ARRAY input: one row per element, each row judged on its own element
+	arrTarget := map[string]string{"EVA": "in:ids", "EVB": "in:who", "EVC": "in:tags"}
+	for _, sh := range c12ArrayShapes {
+		tg := arrTarget[sh]
+		kind := c12Kind(sh, tg)
+		sets := c12ArgSets(sh, tg)[:2]
+		seconds := []c12Filter{{Target: "f:log_addr", Op: "contains", Arg: []string{la[0]}}, {Target: "in:op", Op: "eq", Arg: []string{c12Classes("in:op")[0]}},
+			{Target: "in:op", Op: "ne", Arg: []string{c12Classes("in:op")[1]}}}
+		for _, op := range c12Ops(kind) {
+			for _, as := range sets {
+				for _, agg := range []string{"", "or", "and"} {
+					add(c12Job{Shape: sh, Filters: []c12Filter{{Target: tg, Op: op, Arg: as.arg}}, Agg: agg, Judged: true, Family: "array"})
+				}
+			}
+			for _, sec := range seconds {
+				for _, agg := range []string{"or", "and"} {
+					add(c12Job{Shape: sh, Filters: []c12Filter{{Target: tg, Op: op, Arg: sets[0].arg}, sec}, Agg: agg, Judged: true, Family: "array"})
+					add(c12Job{Shape: sh, Filters: []c12Filter{sec, {Target: tg, Op: op, Arg: sets[0].arg}}, Agg: agg, Judged: true, Family: "array"})
+				}
+			}
+		}
+	}
+	for _, sh := range c12ArrayShapes {
+		add(c12Job{Shape: sh, Judged: true, Family: "nofilter"})
+	}
 	// F5: reference filters on string / integer targets: observed only (see Assumptions)
 	for _, rt := range [][2]string{{"EV2", "in:memo"}, {"EV1", "in:value"}, {"TX", "f:tx_nonce"}, {"TR", "f:trace_action_call_type"}} {
 		for _, op := range []string{"contains", "!contains"} {
@@ -560,7 +606,7 @@ func c12ErrClass(err error) string {
 
 // signature of what a job exercises (violation key component).
 func c12Sig(j c12Job) string {
-	kind := map[string]string{"EV1": "log", "EV2": "log", "EV3": "log-nodata", "TX": "tx", "TR": "trace"}[j.Shape]
+	kind := map[string]string{"EV1": "log", "EV2": "log", "EV3": "log-nodata", "EVA": "log-array", "EVB": "log-array", "EVC": "log-array", "TX": "tx", "TR": "trace"}[j.Shape]
 	agg := j.Agg
 	if agg == "" {
 		agg = "default"
